@@ -63,9 +63,9 @@ proof fn lemma_decomposed_step(s: Seq<char>, k: int)
         let ghost done = decomposed(orig.subrange(0, k));
         let ghost rest = orig.subrange(k + 1, orig.len() as int);
         proof { assert(pre =~= done + seq![orig[k]] + rest); k = k + 1; }
-//@ after-all cs.insert(i + 1, c2);
+//@ after-all? cs.insert(i + 1, c2);
                 proof { assert(cs@ =~= done + seq![c1, c2] + rest); }
-//@ after cs.insert(i + 2, c3);
+//@ after? cs.insert(i + 2, c3);
                 proof { assert(cs@ =~= done + seq![c1, c2, c3] + rest); }
 //@ loop-end 1
         proof {
